@@ -11,6 +11,7 @@ import BR.Model.Comms
 import BR.Model.MR
 import BR.Model.Tm
 import BR.Model.Screw
+import BR.Model.Helpers
 
 namespace BR.Driver
 
@@ -169,6 +170,59 @@ def handle (fn : String) (a : List Float) : Option (List Float) :=
 
 end ScrIO
 
+namespace HlpIO
+open BR.Helpers BR.TmModel BR.MR MRIO
+
+def handle (fn : String) (a : List Float) : Option (List Float) :=
+  match fn with
+  | "hlp.plane" => do
+      let (p1, r) ← v3 a; let (p2, r) ← v3 r; let (p3, _) ← v3 r
+      let pl := planeFromThreePoints p1 p2 p3
+      some (oV3 pl.1 ++ [pl.2])
+  | "hlp.mirror" => do
+      let (o, r) ← v6 a; let (p, _) ← v3 r
+      some (oV3 (mirror (ofTAA o) p))
+  | "hlp.interp" => do
+      let (x, r) ← v6 a; let (y, _) ← v6 r
+      some (oV6 (tmInterpMidpoint x y).TAA)
+  | "hlp.lookat" => do
+      let (x, r) ← v3 a; let (y, _) ← v3 r
+      some (oT4 (lookAtT x y) 1)
+  | "hlp.distance" => do
+      let (x, r) ← v3 a; let (y, _) ← v3 r
+      some [distance x y]
+  | "hlp.arcdist" => do
+      let (x, r) ← v6 a; let (y, _) ← v6 r
+      some [arcDistance x y]
+  | "hlp.clg" => do
+      let (o, r) ← v6 a; let (g, r) ← v6 r
+      match r with
+      | [d] => match closeLinearGap o g d (fun x => x == 0) with
+        | some v => some (oV6 v)
+        | none => some (oV6 g)
+      | _ => none
+  | "hlp.cag" => do
+      let (o, r) ← v6 a; let (g, r) ← v6 r
+      match r with
+      | [d] => match closeArcGap o g d (fun x => x == 0) with
+        | some t => some (oT4 t 1)
+        | none => some (oT4 (taaToTM g) 1)
+      | _ => none
+  | "hlp.ikpath" => do
+      let (x, r) ← v6 a; let (y, r) ← v6 r
+      match r with
+      | [n] => some ((ikPath x y n.toUInt64.toNat (fun k => Float.ofNat k)).flatMap oV6)
+      | _ => none
+  | "hlp.twisttogoal" => do
+      let (x, r) ← t4 a; let (y, _) ← t4 r
+      some (oV6 (twistToGoal m3IsZeroF x y))
+  | "hlp.anglemod" => match a with | [r] => some [angleModScalar r] | _ => none
+  | "hlp.fibo" => match a with | [i, n] => some (oV3 (fiboPoint i n)) | _ => none
+  | "hlp.usphere" => match a with | [x, e] => some (oV3 (unitSpherePoint x e)) | _ => none
+  | _ => none
+
+end HlpIO
+
 /-- session state of the stateful models -/
 structure DState where
   comms : BR.Comms.St := BR.Comms.init []
@@ -296,9 +350,10 @@ def handle (fn : String) (args : List String) : String :=
           toString (obstruction2_gen a b c d e f g h i j k l m n o p q r)
       | _ => "bad-op"
   | _ =>
-    if fn.startsWith "mr." || fn.startsWith "scr." then
+    if fn.startsWith "mr." || fn.startsWith "scr." || fn.startsWith "hlp." then
       match allSome (args.map parseFloat) with
-      | some fl => match (if fn.startsWith "mr." then MRIO.handle fn fl else ScrIO.handle fn fl) with
+      | some fl => match (if fn.startsWith "mr." then MRIO.handle fn fl
+                          else if fn.startsWith "scr." then ScrIO.handle fn fl else HlpIO.handle fn fl) with
         | some out => " ".intercalate (out.map fmtFloat)
         | none => "bad-op"
       | none => "bad-op"
